@@ -1,8 +1,16 @@
 TECHNIQUE = ('bounded symbolic execution of LLVM IR lowered to C: CBMC/SAT (cadical), sequentialised step machine '
              '(engine cbmc-seq: symbolic scheduler over all atomic operations / futex calls), ghost dispatch/invocation '
              'counters + allocation ledger')
-ASSUMPTIONS = []
-OUTSIDE = ''
+ASSUMPTIONS = [
+    'small-buffer pool contract stub (harness/C18/sba_stub.h), model schedulables with typed slots, hand-resolved run closure and exact '
+    'virtual dispatch as in harness/C18/spec.py',
+    'nobody waits on a continuation future while its antecedent is running on another thread (the closure would block inside a '
+    'virtual call, which the engine cannot suspend)',
+    'sequential consistency for all atomics',
+]
+OUTSIDE = ('STATUS: no instance of this spec completed within its timeout in the authoring session (see NOTES.md); '
+           'when_all / when_any / task-set variants are not encoded (claim reduced to the then() kernel); more than two '
+           'continuations; continuation chains; waiters that run a continuation inline; weak-memory reorderings')
 
 def I(name, defs, steps, nthreads, bounds, **kw):
     d = {'name': name, 'src': 'then.cpp', 'engine': 'cbmc-seq', 'steps': steps, 'spin_loops': True, 'defs': defs,
@@ -11,6 +19,22 @@ def I(name, defs, steps, nthreads, bounds, **kw):
     d.update(kw)
     return d
 
+SEQB = ('Future<int32_t> antecedent over a queuing model schedulable; %d then() call(s) (continuation result int64_t, launch policies '
+        'symbolic) and the antecedent\'s run() execute one after the other in a symbolic order (k then() calls before the completion, '
+        'the rest after: task-granularity interleaving); main drops its reference early or late; afterwards main runs the dispatched '
+        'continuation closures, get()s their futures and drops everything')
+def S(name, regs, pool, tiers):
+    return {'name': name, 'src': 'then.cpp', 'engine': 'cbmc', 'defs': {'VF_REGISTRARS': regs, 'VF_SEQ_ORDER': 1, 'VF_CHECK_POOL': pool},
+            'unwind': 8, 'timeout': 1500, 'leak_check': True, 'shims': ['moodycamel'], 'devirt': True, 'tiers': tiers,
+            'spin_loops': True, 'bounds': SEQB % regs + ('; small-buffer blocks must return to the pool they came from' if pool else '')}
+
 INSTANCES = [
-    I('then1', {'VF_REGISTRARS': 1, 'VF_CHECK_POOL': 0}, 2, 3, 'x'),
+    S('then2_order', 2, 0, ['quick', 'thorough']),
+    S('then1_order', 1, 0, ['quick', 'thorough']),
+    # allocator contract on the then() path: fails on the unchanged tree (future_impl.h:240, see NOTES.md)
+    S('then1_order_pool', 1, 1, ['finding']),
+    # concurrent kernel (completer || registrar at atomic-operation granularity): not decided within 25 minutes here
+    I('then1', {'VF_REGISTRARS': 1, 'VF_CHECK_POOL': 0}, 2, 3,
+      'completer thread (antecedent run()) || registrar thread (then()) || main; 2 scheduler rounds', tiers=['experimental'],
+      checks=['--no-standard-checks', '--pointer-check', '--div-by-zero-check']),
 ]
